@@ -98,6 +98,28 @@ func c04Gen(rng *verifsim.RNG, idx int, tier string) *Plan {
 		if p.Horizon < t0+nsSec {
 			p.Horizon = t0 + nsSec
 		}
+	} else if rng.Bool(0.15) {
+		// A transmission fails (the daemon re-establishes the connection) and
+		// forwarding flips right afterwards: whatever is sent next is built from
+		// the state as it is then.
+		p.Class = "send-fails+flip"
+		iw := n.Ifaces[rng.Intn(nif)]
+		t0 := int64(rng.Dur(4*time.Second, horizon)) + 555
+		p.Faults = append(p.Faults, Fault{Seam: "write", If: iw.Name, From: t0, Count: 1, Err: []string{"ENOBUFS", "ENETDOWN", "EINVAL"}[rng.Intn(3)]})
+		a := rsAction(t0+1000, hostAddr(0))
+		a.If = iw.Name
+		p.Actions = append(p.Actions, a,
+			Action{At: t0 + int64(rng.Dur(510*time.Millisecond, 740*time.Millisecond)), Kind: "fwd", If: iw.Name, On: false},
+			Action{At: t0 + 2*nsSec, Kind: "fwd", If: iw.Name, On: true})
+		var keep []Action
+		for _, x := range p.Actions {
+			if x.Kind == "fwd" && x.If == iw.Name && x.At >= t0-nsSec && x.At < t0+510*nsMs {
+				continue
+			}
+			keep = append(keep, x)
+		}
+		p.Actions = keep
+		n.Ifaces[0].Fwd = n.Ifaces[0].Fwd || iw.Name == n.Ifaces[0].Name
 	} else if rng.Bool(0.2) {
 		// An RA that cannot be completed (the automatic prefix's address listing
 		// fails, or the interface has never been initialised) on an interface that
